@@ -67,8 +67,22 @@ Dev_UnsetAggregateElement(sh, n) ==
   \E q \in 1..Len(sh.ps) : \E j \in 1..Len(sh.ps[q]) :
       sh.ps[q][j] = "ao" /\ Choice("ao", n, j + 3 * q) \in {"('a',$,'c')", "($,$,$)"}
 
-(* C01: reading reports no error; ids, order, keywords and every value are the same; a second round trip is *)
-(* byte-identical                                                                                           *)
-RoundTripOK(sev, sameIds, sameKeywords, valuesSame, secondIdentical) ==
-  sev >= 2 /\ sameIds /\ sameKeywords /\ (\A i \in 1..Len(valuesSame) : valuesSame[i]) /\ secondIdentical
+(* header section: FILE_DESCRIPTION(description, implementation_level), FILE_NAME(name, time_stamp, author,      *)
+(* organization, preprocessor_version, originating_system, authorization), FILE_SCHEMA(schema_identifiers);      *)
+(* string lists of length one to three, empty strings, doubled apostrophes, text that looks like Part 21 syntax, *)
+(* control directives                                                                                           *)
+HeaderPool ==
+  << [desc |-> <<"'verif'">>, level |-> "'2;1'", name |-> "'f'", authors |-> <<"'a'">>, orgs |-> <<"'o'">>, pre |-> "'p'", sys |-> "'s'", auth |-> "'z'"],
+     [desc |-> <<"'two'", "'lines'">>, level |-> "'2;1'", name |-> "'it''s.stp'", authors |-> <<"'a1'", "'a2'", "'a3'">>, orgs |-> <<"''">>,
+      pre |-> "'pre (x) #1;'", sys |-> "''", auth |-> "''"],
+     [desc |-> <<"''">>, level |-> "'1'", name |-> "'/* not a comment */'", authors |-> <<"''">>, orgs |-> <<"'o1'", "'o2'">>,
+      pre |-> "'\\X\\E9'", sys |-> "'back\\\\slash'", auth |-> "'$'"],
+     [desc |-> <<"'ENDSEC;'", "'DATA;'", "'HEADER;'">>, level |-> "'2;1'", name |-> "'END-ISO-10303-21;'", authors |-> <<"'a,b'", "'(c)'">>, orgs |-> <<"'o'">>,
+      pre |-> "'p'", sys |-> "'s'", auth |-> "'*'"] >>
+Header(n) == HeaderPool[(n % Len(HeaderPool)) + 1]
+
+(* C01: reading reports no error; ids, order, keywords and every value are the same; the header is the same apart *)
+(* from the time stamp; a second round trip is byte-identical                                                    *)
+RoundTripOK(sev, sameIds, sameKeywords, valuesSame, sameHeader, secondIdentical) ==
+  sev >= 2 /\ sameIds /\ sameKeywords /\ (\A i \in 1..Len(valuesSame) : valuesSame[i]) /\ sameHeader /\ secondIdentical
 =============================================================================
